@@ -18,7 +18,9 @@ from harness.tlaparse import iter_dump_states
 
 # Coded deviations of handlers/UMN.py from the manual that the transcription in spec/UMN.tla follows.
 # When /repo gets a fix: for one of them, delete its name here (the check reports DRIFT until then).
-QUIRKS = ["DashOnlyInCap", "CommentEndsBlock", "NumAlwaysMerged", "DoubleHideCrash"]
+# Already fixed in /repo and therefore removed: DashOnlyInCap (80cc635), NumAlwaysMerged (7c19da0),
+# DoubleHideCrash (1fe5e21).  CommentEndsBlock is recorded in known_findings.json (C08-comment-ends-block).
+QUIRKS = ["CommentEndsBlock"]
 if os.environ.get("VERIF_C08_QUIRKS") is not None:      # development: try the model without a quirk
     QUIRKS = [q for q in os.environ["VERIF_C08_QUIRKS"].split(",") if q]
 
@@ -284,7 +286,8 @@ def main(chk, replay=None):
         traces.extend(build_traces(cases, results, hl))
     # machinery guards: the extstrip option must have reached the code, UMNDirHandler must have served
     for t in traces:
-        if t["extra"]["extstrip_in_force"] != t["case"]["dir"]["mode"]:
+        if t["extra"]["extstrip_in_force"] is not None and t["extra"]["extstrip_in_force"] != t["case"]["dir"]["mode"]:
+            # (None = the lazy was not initialised yet: a directory without files never reads the option)
             raise core.MachineryError("C08: extstrip=%r in force, wanted %r (lazy not reset)"
                                       % (t["extra"]["extstrip_in_force"], t["case"]["dir"]["mode"]))
         if not any("UMNDirHandler" in h for h in t["extra"]["handler"]):
